@@ -1,7 +1,7 @@
 #!/bin/bash
 # offline setup: build the driver and warm the go1.26.8 build cache (std, std with -race, harness)
 export GOFLAGS=-mod=mod GOPROXY=off GOSUMDB=off GOTOOLCHAIN=local
-cd /verif || exit 1
+cd "$(dirname "$(readlink -f "$0")")" || exit 1
 mkdir -p bin evidence replays
 go1.26.8 build -o bin/check ./cmd/check || exit 1
 go1.26.8 build ./... || exit 1
